@@ -1,6 +1,7 @@
 package main
 
 import (
+	"go/ast"
 	"go/types"
 	"strings"
 )
@@ -16,6 +17,7 @@ var primeOrderTypes = map[string]string{
 
 func checkC13(r *Run) {
 	genericGuards(r)
+	checkLengthFirst(r, "C13.G2", Scope{Include: []string{"pkg/base/curves/"}}, 10)
 	r.Rule("C13.G4", "subgroup sibling rule: every exported fallible constructor/decoder that returns a type promising prime order (bls12381 PointG1/PointG2, the PrimeSubGroupPoint types) contains an effective IsTorsionFree guard or delegates to another such constructor of the same type; a new entry point without the check is named")
 	n := 0
 	for _, fd := range r.Prog.FuncsIn(Scope{Include: []string{"pkg/base/curves/"}}) {
@@ -76,4 +78,158 @@ func checkC13(r *Run) {
 		r.Check(ok, "C13.G4", FuncKey(fd.Obj), r.Prog.RelPos(fd.Decl.Pos()), "returns "+tkey+" ("+primeOrderTypes[tkey]+") "+how)
 	}
 	r.RequireCount("C13.G4", "constructors of prime-order types", n, 10)
+}
+
+// checkLengthFirst (C13.G2): in an exported decoder every access `p[c]` / `p[a:b]` with constant bounds to a
+// []byte parameter is dominated by a branch on `len(p)`: a decoder that reads a flag byte before it has
+// looked at the length panics on a short (empty) input instead of rejecting it.
+func checkLengthFirst(r *Run, rule string, scope Scope, min int) {
+	r.Rule(rule, "length before content: in every exported function of the decoder scope, each constant-index or constant-bound access to a []byte parameter is dominated by a branch whose condition tests len() of that parameter (or the parameter was re-sliced / copied into a fixed-size buffer); a flag byte read before the length check is named")
+	n := 0
+	for _, fd := range r.Prog.FuncsIn(scope) {
+		if !fd.Obj.Exported() || fd.Decl.Body == nil {
+			continue
+		}
+		// the low-level `impl` packages sit behind the curve front ends, which check lengths for them
+		if strings.Contains(r.Prog.RelPos(fd.Decl.Pos()), "/impl/") {
+			continue
+		}
+		sig := fd.Obj.Type().(*types.Signature)
+		params := map[*types.Var]bool{}
+		for i := 0; i < sig.Params().Len(); i++ {
+			p := sig.Params().At(i)
+			if sl, ok := p.Type().Underlying().(*types.Slice); ok && !sig.Variadic() {
+				if b, ok := sl.Elem().Underlying().(*types.Basic); ok && b.Kind() == types.Uint8 {
+					params[p] = true
+				}
+			}
+		}
+		if len(params) == 0 {
+			continue
+		}
+		u := r.G.UnitOf(fd)
+		info := fd.Pkg.TypesInfo
+		// a parameter that is reassigned (`in = in[1:]`) is out of the rule's reach
+		ast.Inspect(fd.Decl.Body, func(x ast.Node) bool {
+			if as, ok := x.(*ast.AssignStmt); ok {
+				for _, l := range as.Lhs {
+					if id := identOf(l); id != nil {
+						if v, ok := info.Uses[id].(*types.Var); ok {
+							delete(params, v)
+						}
+					}
+				}
+			}
+			return true
+		})
+		lenTests := func(cond ast.Node, p *types.Var) bool {
+			found := false
+			ast.Inspect(cond, func(x ast.Node) bool {
+				if c, ok := x.(*ast.CallExpr); ok && len(c.Args) == 1 {
+					if id, ok := ast.Unparen(c.Fun).(*ast.Ident); ok {
+						if b, ok := info.Uses[id].(*types.Builtin); ok && b.Name() == "len" {
+							if aid := identOf(c.Args[0]); aid != nil && info.Uses[aid] == p {
+								found = true
+							}
+						}
+					}
+				}
+				return !found
+			})
+			return found
+		}
+		ast.Inspect(fd.Decl.Body, func(x ast.Node) bool {
+			if _, isLit := x.(*ast.FuncLit); isLit {
+				return false
+			}
+			var base ast.Expr
+			constAccess := false
+			switch e := x.(type) {
+			case *ast.IndexExpr:
+				base = e.X
+				if tv, ok := info.Types[e.Index]; ok && tv.Value != nil {
+					constAccess = true
+				}
+			case *ast.SliceExpr:
+				base = e.X
+				for _, b := range []ast.Expr{e.Low, e.High} {
+					if b != nil {
+						if tv, ok := info.Types[b]; ok && tv.Value != nil && tv.Value.String() != "0" {
+							constAccess = true
+						}
+					}
+				}
+			}
+			if !constAccess {
+				return true
+			}
+			id := identOf(base)
+			if id == nil {
+				return true
+			}
+			p, ok := info.Uses[id].(*types.Var)
+			if !ok || !params[p] {
+				return true
+			}
+			n++
+			nb := u.BlockOf(x)
+			guarded := false
+			if nb != nil {
+				for _, b := range u.CFG.Blocks {
+					if !b.Live || len(b.Succs) < 2 || len(b.Nodes) == 0 || b == nb && false {
+						continue
+					}
+					cond := b.Nodes[len(b.Nodes)-1]
+					if !lenTests(cond, p) {
+						continue
+					}
+					if b != nb && u.Dominates(b, nb) {
+						guarded = true
+						break
+					}
+					// `len(p) != n || p[n-1]&0x80 != 0`: the test precedes the access inside one short-circuit condition
+					if b == nb && cond.Pos() <= x.Pos() && x.End() <= cond.End() && lenTestBefore(info, cond, p, x) {
+						guarded = true
+						break
+					}
+				}
+			}
+			key := FuncKey(fd.Obj) + " :: " + p.Name() + " access"
+			if guarded {
+				r.Pass(rule, key, r.Prog.RelPos(x.Pos()), "dominated by a test of len("+p.Name()+")")
+			} else {
+				r.Fail(rule, key, r.Prog.RelPos(x.Pos()), "constant-position access to parameter `"+p.Name()+"` is not dominated by any test of len("+p.Name()+"): a short input panics instead of being rejected")
+			}
+			return true
+		})
+	}
+	r.RequireCount(rule, "constant-position accesses to []byte parameters", n, min)
+}
+
+// lenTestBefore: inside the short-circuit condition cond, a test of len(p) is the left operand of an && / ||
+// whose right operand contains the access.
+func lenTestBefore(info *types.Info, cond ast.Node, p *types.Var, access ast.Node) bool {
+	res := false
+	ast.Inspect(cond, func(x ast.Node) bool {
+		be, ok := x.(*ast.BinaryExpr)
+		if !ok || (be.Op.String() != "&&" && be.Op.String() != "||") {
+			return true
+		}
+		if be.Y.Pos() <= access.Pos() && access.End() <= be.Y.End() {
+			ast.Inspect(be.X, func(y ast.Node) bool {
+				if c, ok := y.(*ast.CallExpr); ok && len(c.Args) == 1 {
+					if id, ok := ast.Unparen(c.Fun).(*ast.Ident); ok {
+						if b, ok := info.Uses[id].(*types.Builtin); ok && b.Name() == "len" {
+							if aid := identOf(c.Args[0]); aid != nil && info.Uses[aid] == p {
+								res = true
+							}
+						}
+					}
+				}
+				return !res
+			})
+		}
+		return !res
+	})
+	return res
 }
